@@ -49,6 +49,14 @@ static void note_fired(void) {
   if (fd >= 0) { syscall(SYS_write, fd, "fired=1\n", 8); syscall(SYS_close, fd); }
 }
 
+static void note_rule(void) {
+  /* an explicit PV_FAULTS rule (k-th call fails) fired, as opposed to a random short count */
+  const char *p = getenv("PV_FAULT_REPORT");
+  if (!p) return;
+  int fd = syscall(SYS_open, p, 02001 | 0100, 0644);
+  if (fd >= 0) { syscall(SYS_write, fd, "rule=1\n", 7); syscall(SYS_close, fd); }
+}
+
 static void report(void) {
   const char *p = getenv("PV_FAULT_REPORT");
   if (!p) return;
@@ -150,8 +158,8 @@ static long decide(int op, size_t count) {
   ++calls;
   for (int i = 0; i < nrules; ++i) {
     if (rules[i].op == op && rules[i].k == k) {
-      if (rules[i].kind == 0) { ++fired; note_fired(); errno = EINTR; res = -1; }
-      else if (rules[i].kind == 2) { ++fired; note_fired(); errno = (int)rules[i].arg; res = -1; }
+      if (rules[i].kind == 0) { ++fired; note_fired(); note_rule(); errno = EINTR; res = -1; }
+      else if (rules[i].kind == 2) { ++fired; note_fired(); note_rule(); errno = (int)rules[i].arg; res = -1; }
       else res = rules[i].arg;
       pthread_mutex_unlock(&mu);
       return res;
